@@ -260,6 +260,8 @@ async def run_prog(w: World, prog, actor: str, depth: int, in_handler: bool, sid
             _, busn, typ, opts, var = op
             if in_handler and depth >= sc.get('max_depth', 2):
                 continue
+            if w.nev >= sc.get('max_events', 160):
+                continue  # size cap: keeps generated programs bounded
             opts = dict(opts or {})
             name, ev = w.new_event(typ, depth + 1 if in_handler else 0, opts, actor, f'{sid_prefix}.{opi}')
             if opts.get('parent'):
@@ -527,7 +529,7 @@ def make_handler(w: World, hi: int, spec: dict):
                     w.loop.burn(op[1])
                 elif o == 'dispatch':
                     _, bn, typ, opts, var = op
-                    if event.depth >= w.sc.get('max_depth', 2):
+                    if event.depth >= w.sc.get('max_depth', 2) or w.nev >= w.sc.get('max_events', 160):
                         continue
                     name, ev = w.new_event(typ, event.depth + 1, dict(opts or {}), act, f'{w.sid[en]}/{busn}.h{hi}.{opi}')
                     do_dispatch(w, act, bn, name, ev)
@@ -702,6 +704,7 @@ def run_scenario(sc: dict, watch_factory=None, keep_world=False):
     loop.stalls = sorted([list(x) for x in faults.get('stalls', [])])
     silence_limit = bounds.get('silence', 10.0)
     loop.silence = (lambda: w.last_progress, silence_limit)
+    loop.progress = lambda: w.nprogress
 
     at_step = {int(k): a for k, a in faults.get('at_step', [])}
     injected: list[asyncio.Task] = []
